@@ -48,8 +48,9 @@ CHECK_DEADLOCK FALSE
 
 JUDGE_CFG = "INIT Init\nNEXT Next\nINVARIANT Judge\nCHECK_DEADLOCK FALSE\n"
 
-CAP_CFG = "INIT Init\nNEXT Next\nCONSTANT K = %d\nINVARIANT WellFormed\nINVARIANT Emit\nCHECK_DEADLOCK FALSE\n"
-CAP_K = 12
+CAP_CFG = "INIT Init\nNEXT Next\nCONSTANT Ks = {%s}\nINVARIANT Checked\nINVARIANT Emit\nCHECK_DEADLOCK FALSE\n"
+CAP_TLC = [1, 12, 57, 286, 573]  # evaluated by TLC itself (6 K^3 < 2^31)
+CAP_KS = [12, 57, 286, 573, 2865, 19099]  # atan(1/K) = 4.8, 1.0, 0.2, 0.1, 0.02, 0.003 degrees
 
 STATE_CLAUSES = ["LonInRange", "LatInRange", "SamePoint", "DerivedUnit", "NormalizedIsUnit", "Confluence"]
 
@@ -60,19 +61,28 @@ PRIMARY = ["rhombic_dodecahedron", "tetrakis_cube", "octahedron"]
 MIXED = ["cuboctahedron", "truncated_octahedron_split", "truncated_cube_split"]
 
 
-def cap_mesh(ctx):
-    """A mesh with nodes 4.8 degrees from the poles, defined and proved well-formed in CoordCap.tla."""
-    r = ctx.tlc_ok("CoordCap", CAP_CFG % CAP_K, what="polar-cap mesh K=%d well-formed" % CAP_K, workers=1)
-    caps = [p[1] for p in r.prints if isinstance(p, tuple) and len(p) == 2 and p[0] == "CAP"]
-    if len(caps) != 1:
-        raise Machinery("CoordCap printed %d meshes" % len(caps))
-    key = ("polar_cap", CAP_K, 0)
-    X.register_mesh(key, caps[0]["nodes"], caps[0]["faces"])
-    return key
+def cap_meshes(ctx):
+    """Meshes with rings of nodes 4.8, 1, 0.2, 0.1, 0.02 and 0.003 degrees from both poles, defined in
+    CoordCap.tla: proved well-formed by TLC directly for the K it can evaluate and, for every K, through
+    the scaled twin K = 1 (CapMesh(K) = diag(1, 1, K) CapMesh(1), det > 0 keeps every determinant sign)."""
+    r = ctx.tlc_ok("CoordCap", CAP_CFG % ", ".join(map(str, CAP_TLC)), what="polar-cap meshes K in %s well-formed" % (CAP_TLC,), workers=1)
+    caps = {p[1]["k"]: p[1] for p in r.prints if isinstance(p, tuple) and len(p) == 2 and p[0] == "CAP"}
+    if sorted(caps) != sorted(CAP_TLC):
+        raise Machinery("CoordCap printed meshes for K = %s" % sorted(caps))
+    twin = caps[1]
+    keys = []
+    for k in CAP_KS:
+        nodes = X.scale_z(twin["nodes"], k)
+        if k in caps and [list(v) for v in caps[k]["nodes"]] != nodes:
+            raise Machinery("scaled twin of CapMesh(%d) differs from the mesh TLC printed" % k)
+        key = ("polar_cap", k, 0)
+        X.register_mesh(key, nodes, twin["faces"])
+        keys.append(key)
+    return keys
 
 
 def pick_meshes(ctx, thorough, rng):
-    prim, mixed = [cap_mesh(ctx)], []
+    prim, mixed = cap_meshes(ctx), []
     rots = [0, 5, 11, 17, 22] if thorough else [0, 7]
     for n in PRIMARY:
         for r in rots:
@@ -112,6 +122,8 @@ def make_cases(tag, walks, nodes, meshes, feats, start=0):
                     "src": src,
                     "route": route,
                     "mesh": mesh,
+                    # supplied centres: the centroids, or (every other history) directions off the centroid
+                    "centres": "offset" if (w + j) % 2 and (src["face"] != "none" or src["edge"] != "none") else "centroid",
                     "acts": [a for a, _ in walk],
                     "path": [init] + [v for _, v in walk],
                 }
